@@ -1,3 +1,4 @@
+import WS.Lemmas.ReadProgram
 import WS.Lemmas.MixedReads
 import WS.Lemmas.Sequences
 import WS.Lemmas.JoinLaw
@@ -225,6 +226,25 @@ theorem join_messages (c : Conn) (hc : ReaderIdle c) (msgs : List (Nat × List P
       ReaderIdle c' ∧ c'.r.buf.pending = rest ∧
       c'.r.hlog = c.r.hlog ++ (msgs.map (fun m => ctlEvents m.2)).flatten := by
   first | exact WS.JoinSeq.join_messages .. | (apply WS.JoinSeq.join_messages <;> assumption)
+
+open WS.Codec WS.ReaderDecodes WS.ReadProgram in
+/-- C03 at its full quantifier — EVERY program over the read API (`runProg`: NextReader and Read(k) in
+    any order, number and sizes; reading on after the end of a message; opening the next message while
+    the current one is unread, partly read or fully read) run against a stream of conformant messages,
+    with or without a read limit, observes exactly what the messages dictate (`Ok`, WS/Lemmas/ReadProgram.lean):
+    the i-th NextReader opens the i-th message with its type — none skipped, none delivered twice —, every
+    Read returns a non-empty piece of at most the size asked for, continuing exactly where the previous
+    Read of that message stopped, with no error; end-of-message is reported exactly when the whole payload
+    has been delivered, and again on every later Read of that reader -/
+theorem any_read_program (c : Conn) (hc : ReaderIdle c) (msgs : List (Nat × List PFrame))
+    (hm : ∀ m ∈ msgs, (m.1 = 1 ∨ m.1 = 2) ∧ MsgShape m.1 m.2 ∧ (dataPayload m.2).length < 2 ^ 62 ∧
+            (c.r.limit ≤ 0 ∨ ((dataPayload m.2).length : Int) ≤ c.r.limit))
+    (rest : Bytes)
+    (hp : c.r.buf.pending = (msgs.map (fun m => encAll c.r.isServer m.2)).flatten ++ rest)
+    (hend : c.r.buf.t.together = false ∨ rest ≠ [])
+    (ops : List ROp) (hn : (ops.filter ROp.isNext).length ≤ msgs.length) :
+    Ok ops (msgs.map (fun m => (m.1, dataPayload m.2))) none false (runProg ops c none).1 := by
+  first | exact WS.ReadProgram.any_read_program .. | (apply WS.ReadProgram.any_read_program <;> assumption)
 
 /-! ### non-vacuity -/
 section NonVacuity
@@ -524,6 +544,32 @@ example : (readAllGrow (nextReader witSrv).2 0 [2, 3, 8]).1 = ([0x48, 0x65, 0x6c
   decide +kernel
 
 end Mixed
+
+section Program
+open WS.ReadProgram
+
+/-- a program that reads before opening anything, opens the first message, reads 2 bytes, abandons it,
+    opens the second, reads it in pieces of up to 3 bytes, reads on past its end -/
+def witProg : List ROp := [.read 5, .next, .read 1, .next, .read 2, .read 2, .read 2, .read 0]
+
+/-- non-vacuity of `any_read_program`: the hypotheses hold for `witSrv` and the two witness messages -/
+example : Ok witProg [(1, dataPayload witMsg), (2, dataPayload witMsg2)] none false (runProg witProg witSrv none).1 :=
+  any_read_program witSrv witSrv_idle [(1, witMsg), (2, witMsg2)]
+    (by
+      intro m hm
+      simp only [List.mem_cons, List.mem_nil_iff, or_false] at hm
+      rcases hm with rfl | rfl
+      · exact ⟨Or.inl rfl, witMsg_shape, by decide, Or.inl (by decide)⟩
+      · exact ⟨Or.inr rfl, witMsg2_shape, by decide, Or.inl (by decide)⟩)
+    [0x81] (by decide) (Or.inl rfl) witProg (by decide)
+
+/-- the trace of that run, evaluated on the model: "He", then the second message although "llo" and a
+    ping were still unread, its four bytes in pieces of 3 and 1, end-of-message twice -/
+example : (runProg witProg witSrv none).1 =
+    [.opened 1, .ret [0x48, 0x65] none, .opened 2, .ret [0xde, 0xad, 0xbe] none, .ret [0xef] none,
+     .ret [] (some .eof), .ret [] (some .eof)] := by decide +kernel
+
+end Program
 
 end NonVacuity
 
